@@ -37,6 +37,29 @@ func (r *Run) ExecTx(tx *Tx) *TxResult {
 	}
 	res := &TxResult{}
 	switch tx.Route {
+	case "sig":
+		r.Stats.Inc("tx.sig_msgserver")
+		for _, msg := range msgs {
+			err, pi := c.DirectSig(msg)
+			r.currentBlockTxBytes = append(r.currentBlockTxBytes, deliveredTx{sig: msg})
+			if pi != nil {
+				res.Panic = pi
+				res.Log = pi.Value
+				break
+			}
+			if err != nil {
+				res.Log = err.Error()
+				res.Code = 1
+				if cs, code, _ := errABCI(err); code != 0 {
+					res.Codespace, res.Code = cs, code
+				}
+				break
+			}
+			res.OK = true
+		}
+		if res.Panic != nil || res.Code != 0 {
+			res.OK = false
+		}
 	case "direct":
 		r.Stats.Inc("tx.direct")
 		for _, msg := range msgs {
